@@ -295,7 +295,7 @@ func init() {
 		Assume: []string{"yield hooks cover the registry load/store, the struct field loop, the intern-table miss and the map scratch pool; preemption elsewhere is only reached by the free-running lane", "the race detector's happens-before analysis"},
 		Plan: func(tier string) []core.Lane {
 			if tier == "thorough" {
-				return []core.Lane{{Lane: "plain", Cases: 400000, Shards: 16, TimeoutS: 7200}, {Lane: "race", Cases: 60000, Shards: 16, TimeoutS: 7200},
+				return []core.Lane{{Lane: "plain", Cases: 600000, Shards: 16, TimeoutS: 7200}, {Lane: "race", Cases: 90000, Shards: 16, TimeoutS: 7200},
 					{Lane: "systematic", Cases: len(c07Scenarios()) * c07SysBlocks, Shards: 16, TimeoutS: 7200}}
 			}
 			return []core.Lane{{Lane: "plain", Cases: 16000, Shards: 16, TimeoutS: 1800}, {Lane: "race", Cases: 2400, Shards: 16, TimeoutS: 1800}}
